@@ -191,7 +191,7 @@ func vRedactOp(t []string) string {
 				}
 			}
 		}
-		return fmt.Sprintf("obf=%s leak=%d", vHexC([]byte(LicenseKey(key).String())), leak)
+		return fmt.Sprintf("obf=%s leak=%d", vHexC([]byte(vObf(key))), leak)
 	case "proxyerr":
 		pb, _ := hex.DecodeString(vKVc(t, "proxy", ""))
 		sb, _ := hex.DecodeString(vKVc(t, "secret", ""))
@@ -215,4 +215,10 @@ func vHexC(b []byte) string {
 		return "-"
 	}
 	return hex.EncodeToString(b)
+}
+
+// vObf: the obfuscated form, through a variable (works whether String has a value or a pointer receiver)
+func vObf(key string) string {
+	lk := LicenseKey(key)
+	return lk.String()
 }
